@@ -106,3 +106,24 @@ def switch_meaning(b, s, value):
                     return tuple(rest)
                 return vs.get(value, value)
     return value
+
+
+def arith(e):
+    """Normalise an addition / subtraction written as an operator or as a saturating_/checked_/wrapping_
+    method call: returns (op, lhs, rhs) with op in {'Add', 'Sub', 'Mul'} or None.  `checked_*` results are
+    looked through `?` / unwrap-style wrappers by the callers' use of calls_in where needed."""
+    e = mir.strip_casts(e)
+    if isinstance(e, tuple) and e:
+        if e[0] == "bin" and e[1] in ("Add", "Sub", "Mul"):
+            return (e[1], e[2], e[3])
+        if e[0] == "call" and len(e[2]) == 2:
+            n = e[1].split("::")[-1]
+            for pre in ("saturating_", "checked_", "wrapping_", "overflowing_"):
+                if n.startswith(pre) and n[len(pre):] in ("add", "sub", "mul"):
+                    return (n[len(pre):].capitalize(), e[2][0], e[2][1])
+        if e[0] in ("try", "proj") and len(e) > 1:
+            return arith(e[1])
+        if e[0] == "call" and e[1] in ("std::option::Option::unwrap", "std::option::Option::expect",
+                                       "std::option::Option::unwrap_or", "std::option::Option::unwrap_or_default") and e[2]:
+            return arith(e[2][0])
+    return None
